@@ -453,7 +453,7 @@ def generate(params_dir, outdir, seg_exceptions=None, kind_exceptions=None):
             nob += 2
             # every identifier kind: the whole binary identifier agrees with one record of the collection
             t += "Definition collids%d := pure_ids (%s).\n" % (ci, coll)
-            t += ('Eval vm_compute in ("BADIDS", %s, %d, map (fun b => (b_id1 b, b_id2 b)) (filter (fun b => negb (bin_ids_okb collids%d [b])) data)).\n'
+            t += ('Eval vm_compute in ("BADIDS", %s, %d, map (fun b => (map (fun k => get_kind k (b_id1 b)) all_kinds, map (fun k => get_kind k (b_id2 b)) all_kinds)) (filter (fun b => negb (bin_ids_okb collids%d [b])) data)).\n'
                   % (cstr(rel), ci, ci))
             t += "Lemma ids%d : bin_ids_okb collids%d data = true.\nProof. vm_compute. reflexivity. Qed.\n" % (ci, ci)
             t += "Theorem shipped_ids%d : bin_ids_ok collids%d data.\nProof. exact (bin_ids_okb_sound _ _ ids%d). Qed.\n" % (ci, ci, ci)
